@@ -5,7 +5,7 @@ pub proof fn lemma_wf_filter_from_layout(out: Seq<u8>, len: int, base: int, n: i
         base + 4 + 2 * n <= len, 0 <= n, len - base <= 65535,
         u16_at(out, base) == len - base, u16_at(out, base + 2) == n,
         forall|j: int| 0 <= j < n ==> #[trigger] ftag_done(out, base, j, n, len),
-    ensures wf_filter(out.subrange(0, len))
+    ensures wf_filter(out.subrange(0, len)), f_named(out.subrange(0, len))
 {
     let c = out.subrange(0, len);
     assert forall|i: int| 0 <= i && i + 2 <= len implies #[trigger] u16_at(c, i) == u16_at(out, i) by {
@@ -65,5 +65,53 @@ pub proof fn lemma_ftags_frame_below(b: Seq<u8>, b2: Seq<u8>, base: int, n: int,
         let offj = base + u16_at(b, base + 4 + 2 * j);
         lemma_so_mono(b, offj + 2, 0, u16_at(b, offj));
         lemma_ftag_done_frame(b, b2, base, j, n, limit);
+    }
+}
+
+// ---- Filter::from_parts: the 32-byte header as one concatenation, and what it means for the field views ----
+pub open spec fn filter_header(len: u32, ni: u16, na: u16, nk: u16, limit: u32, since: u64, until: u64) -> Seq<u8> {
+    bytes32(len) + bytes16(ni) + bytes16(na) + bytes16(nk) + seq![0u8, 0u8] + bytes32(limit) + bytes64(since) + bytes64(until)
+}
+pub proof fn lemma_filter_header_fields(c: Seq<u8>, len: u32, ni: u16, na: u16, nk: u16, limit: u32, since: u64, until: u64)
+    requires c.len() >= 32, c.subrange(0, 32) == filter_header(len, ni, na, nk, limit, since, until)
+    ensures u32_at(c, 0) == len, f_nids(c) == ni, f_nauthors(c) == na, f_nkinds(c) == nk, c[10] == 0, c[11] == 0,
+        f_limit(c) == limit, f_since(c) == since, f_until(c) == until
+{
+    broadcast use lemma_ne16_bytes16, lemma_ne32_bytes32, lemma_ne64_bytes64;
+    let h = filter_header(len, ni, na, nk, limit, since, until);
+    assert(h.len() == 32);
+    assert forall|i: int| 0 <= i < 32 implies c[i] == h[i] by { assert(c.subrange(0, 32)[i] == c[i]); }
+    assert(c.subrange(0, 4) =~= bytes32(len));
+    assert(c.subrange(4, 6) =~= bytes16(ni));
+    assert(c.subrange(6, 8) =~= bytes16(na));
+    assert(c.subrange(8, 10) =~= bytes16(nk));
+    assert(c.subrange(12, 16) =~= bytes32(limit));
+    assert(c.subrange(16, 24) =~= bytes64(since));
+    assert(c.subrange(24, 32) =~= bytes64(until));
+}
+// ---- arrays of fixed-width blocks (ids, authors: 32 bytes; kinds: 2 bytes) written one after another ----
+pub open spec fn blocks32_ok(b: Seq<u8>, start: int, vals: Seq<Seq<u8>>, n: int) -> bool {
+    forall|k: int| 0 <= k < n ==> #[trigger] b.subrange(start + 32 * k, start + 32 * k + 32) == vals[k]
+}
+pub open spec fn blocks2_ok(b: Seq<u8>, start: int, vals: Seq<Seq<u8>>, n: int) -> bool {
+    forall|k: int| 0 <= k < n ==> #[trigger] b.subrange(start + 2 * k, start + 2 * k + 2) == vals[k]
+}
+// a buffer that agrees with b below the end of the first n blocks holds the same n blocks
+pub proof fn lemma_blocks32_frame(b: Seq<u8>, b2: Seq<u8>, start: int, vals: Seq<Seq<u8>>, n: int)
+    requires blocks32_ok(b, start, vals, n), 0 <= start, 0 <= n, start + 32 * n <= b.len(), start + 32 * n <= b2.len(),
+        forall|i: int| 0 <= i < start + 32 * n ==> #[trigger] b2[i] == b[i],
+    ensures blocks32_ok(b2, start, vals, n)
+{
+    assert forall|k: int| 0 <= k < n implies #[trigger] b2.subrange(start + 32 * k, start + 32 * k + 32) == vals[k] by {
+        assert(b2.subrange(start + 32 * k, start + 32 * k + 32) =~= b.subrange(start + 32 * k, start + 32 * k + 32));
+    }
+}
+pub proof fn lemma_blocks2_frame(b: Seq<u8>, b2: Seq<u8>, start: int, vals: Seq<Seq<u8>>, n: int)
+    requires blocks2_ok(b, start, vals, n), 0 <= start, 0 <= n, start + 2 * n <= b.len(), start + 2 * n <= b2.len(),
+        forall|i: int| 0 <= i < start + 2 * n ==> #[trigger] b2[i] == b[i],
+    ensures blocks2_ok(b2, start, vals, n)
+{
+    assert forall|k: int| 0 <= k < n implies #[trigger] b2.subrange(start + 2 * k, start + 2 * k + 2) == vals[k] by {
+        assert(b2.subrange(start + 2 * k, start + 2 * k + 2) =~= b.subrange(start + 2 * k, start + 2 * k + 2));
     }
 }
